@@ -1,10 +1,17 @@
 -------------------------------- MODULE DagDiff --------------------------------
 (* C14 -- dagutils.Diff / dagutils.ApplyChange on dag-pb directory trees.
 
-   A tree is FLAT: a function from paths (sequences of link names, <<>> = the root) to the data id
-   of the node at that path, prefix-closed.  Every node -- a directory too, populated or not, the
-   root too -- carries its OWN data id (directory payloads with different metadata are different
-   ids), and two trees may differ in the data of a directory, in its entries, or in both.  The
+   A tree is FLAT: a function from paths (sequences of link names, <<>> = the root) to the LABEL
+   of the node at that path, prefix-closed.  A label is the pair <<payload id, CID builder id>>:
+   the identity of a node is its CID, which is determined by the node's own Data, its links and
+   the CID builder (CID version, hash function) it was made with -- NOT by its bytes alone.  So
+   equality of labelled trees is exactly equality of root CIDs (the property's observable), and a
+   node that keeps its Data and entries but is rebuilt with another CID builder is a different
+   node, at a leaf, an empty directory, a populated directory or the root alike.  Every node -- a
+   directory too, populated or not, the root too -- carries its OWN label (directory payloads with
+   different metadata are different payload ids), and two trees may differ in the label of a
+   directory, in its entries, or in both.  The editor keeps both the Data and the CID builder of
+   the nodes it passes through, so everything said below about "data" holds for the label.  The
    operators work on arbitrary dag-pb trees (any node may have data AND links), which is what the
    real editor edits: a Change never touches the data of the nodes it passes through.  Hence a
    difference in a node's own data can only be reported as a Mod of that node as a whole; for
@@ -73,6 +80,21 @@ AsBuiltResult(a, b)  == [q \in DOMAIN b |-> IF DescAsBuilt(a, b, q) THEN a[q] EL
 DataIgnored          == /\ "Dev_C14_DataIgnored" \in Devs
                         /\ AsBuiltResult(src, tgt) # tgt
                         /\ ~bad /\ cur = AsBuiltResult(src, tgt)
+
+(* ---- Dev_C14_CidBuilderIgnored: what the code does instead ---------------------------------
+   As built, Diff(a, b) looks at the two nodes' Data (and whether both are link-less) but not at
+   their CID builders: two nodes with different CIDs, equal Data and at least one link are descended
+   into although their CIDs may differ BECAUSE of the builder (CIDv0 vs CIDv1, another hash) -- then
+   only link changes below are reported (none at all if the entries are identical), and the result
+   of applying the report keeps a's builder at every such node: its CID is not b's.            *)
+Payload(x)            == x[1]
+DescAsBuiltB(a, b, q) == \A i \in 0..Len(q) : LET r == SubSeq(q, 1, i) IN
+                           /\ r \in DOMAIN a /\ r \in DOMAIN b /\ Sub(a, r) # Sub(b, r)
+                           /\ ~(Linkless(a, r) /\ Linkless(b, r)) /\ Payload(a[r]) = Payload(b[r])
+AsBuiltResultB(a, b)  == [q \in DOMAIN b |-> IF DescAsBuiltB(a, b, q) THEN a[q] ELSE b[q]]
+BuilderIgnored        == /\ "Dev_C14_CidBuilderIgnored" \in Devs
+                         /\ AsBuiltResultB(src, tgt) # tgt
+                         /\ ~bad /\ cur = AsBuiltResultB(src, tgt)
 
 (* ---- Dev_C14_RootMod: what the code does instead ------------------------------------------
    Diff(a, b) reports the (correct) change  Mod at the empty path, After = b  when the two ROOTS do
